@@ -654,13 +654,29 @@ class AtLeast(puan.Proposition):
             # than full len of propositions, then this
             # is a mixed of both
             if len(compounds) < len(self.propositions):
-                compounds.append(
-                    AtLeast(
-                        value=self.value,
-                        propositions=atoms,
-                        sign=self.sign,
+                if self.value == 1 and all(map(lambda x: x.bounds.lower >= 0, atoms)):
+                    # "at least one" is false exactly when no compound holds and the
+                    # (non-negative) atoms sum to zero: the atoms form one group
+                    compounds.append(
+                        AtLeast(
+                            value=self.value,
+                            propositions=atoms,
+                            sign=self.sign,
+                        )
                     )
-                )
+                elif all(map(lambda x: x.bounds.as_tuple() == (0,1), atoms)):
+                    # for any other value every boolean atom counts as its own
+                    # member (x >= 1), so that the sum over the members is unchanged
+                    compounds.extend(
+                        map(
+                            lambda x: AtLeast(value=1, propositions=[x]),
+                            atoms
+                        )
+                    )
+                else:
+                    # an integer atom is not a 0/1 member: the plain
+                    # complement (negative sign) is returned as it is
+                    return negated
 
             negated.propositions = list(
                 map(
